@@ -1084,13 +1084,14 @@ fn quote_from_trait(input: &DataType, ctx: &ImplContext, pre_init: Option<TokenS
 
 fn quote_try_from_trait(input: &DataType, ctx: &ImplContext, pre_init: Option<TokenStream>, init: TokenStream) -> TokenStream {
     let QuoteTraitParams { attr, impl_attr, inner_attr, dst, src, these_gens, those_gens, impl_gens, where_clause, r } = get_quote_trait_params(input, ctx);
-    let err_ty = &ctx.struct_attr.err_ty.as_ref().unwrap().path;
+    let err_ty = ctx.struct_attr.err_ty.as_ref().unwrap();
+    let (err_ty, err_gens) = (&err_ty.path, &err_ty.generics);
     quote! {
         #impl_attr
         impl #impl_gens ::core::convert::TryFrom<#r #src #those_gens> for #dst #these_gens #where_clause {
-            type Error = #err_ty;
+            type Error = #err_ty #err_gens;
             #attr
-            fn try_from(value: #r #src #those_gens) -> ::core::result::Result<#dst #these_gens, #err_ty> {
+            fn try_from(value: #r #src #those_gens) -> ::core::result::Result<#dst #these_gens, #err_ty #err_gens> {
                 #inner_attr
                 #pre_init
                 #init
@@ -1130,7 +1131,8 @@ fn quote_into_trait(input: &DataType, ctx: &ImplContext, pre_init: Option<TokenS
 
 fn quote_try_into_trait(input: &DataType, ctx: &ImplContext, pre_init: Option<TokenStream>, init: TokenStream, post_init: Option<TokenStream>) -> TokenStream {
     let QuoteTraitParams { attr, impl_attr, inner_attr, dst, src, these_gens, those_gens, impl_gens, where_clause, r } = get_quote_trait_params(input, ctx);
-    let err_ty = &ctx.struct_attr.err_ty.as_ref().unwrap().path;
+    let err_ty = ctx.struct_attr.err_ty.as_ref().unwrap();
+    let (err_ty, err_gens) = (&err_ty.path, &err_ty.generics);
 
     let body = match post_init {
         Some(post_init) => quote! {
@@ -1149,9 +1151,9 @@ fn quote_try_into_trait(input: &DataType, ctx: &ImplContext, pre_init: Option<To
     quote! {
         #impl_attr
         impl #impl_gens ::core::convert::TryInto<#dst #those_gens> for #r #src #these_gens #where_clause {
-            type Error = #err_ty;
+            type Error = #err_ty #err_gens;
             #attr
-            fn try_into(self) -> ::core::result::Result<#dst #those_gens, #err_ty> {
+            fn try_into(self) -> ::core::result::Result<#dst #those_gens, #err_ty #err_gens> {
                 #inner_attr
                 #body
             }
@@ -1177,13 +1179,14 @@ fn quote_into_existing_trait(input: &DataType, ctx: &ImplContext, pre_init: Opti
 
 fn quote_try_into_existing_trait(input: &DataType, ctx: &ImplContext, pre_init: Option<TokenStream>, init: TokenStream, post_init: Option<TokenStream>) -> TokenStream {
     let QuoteTraitParams { attr, impl_attr, inner_attr, dst, src, these_gens, those_gens, impl_gens, where_clause, r } = get_quote_trait_params(input, ctx);
-    let err_ty = &ctx.struct_attr.err_ty.as_ref().unwrap().path;
+    let err_ty = ctx.struct_attr.err_ty.as_ref().unwrap();
+    let (err_ty, err_gens) = (&err_ty.path, &err_ty.generics);
     quote! {
         #impl_attr
         impl #impl_gens o2o::traits::TryIntoExisting<#dst #those_gens> for #r #src #these_gens #where_clause {
-            type Error = #err_ty;
+            type Error = #err_ty #err_gens;
             #attr
-            fn try_into_existing(self, other: &mut #dst #those_gens) -> ::core::result::Result<(), #err_ty> {
+            fn try_into_existing(self, other: &mut #dst #those_gens) -> ::core::result::Result<(), #err_ty #err_gens> {
                 #inner_attr
                 #pre_init
                 #init
